@@ -759,6 +759,7 @@ Definition d_apply (s : dstate) (kind : string) (a : list N) (data : list N) (rl
         if (if q =? 0 then sh else shm) then (s, VL [VS "sent"; VN (if ra then 1 else 0)]) else (s, VS "refused")
     end
   else if String.eqb kind "panics" then (s, VN 0)      (* the model has no panics: every handler is a total function *)
+  else if String.eqb kind "teardown" then (s, VL [VS "ok"; VN 0])     (* nothing the daemon received stays open once it is gone *)
   else if String.eqb kind "backend_log" then
     let m := d_mem s in (s, VL [VN (m_upd m); VL (map VN (m_ackf m)); VL (map VN (m_evlog m)); VN 0])
   else (s, VS "model-unknown-step").
